@@ -97,6 +97,8 @@ def main():
         stats = collections.Counter()
         stats['solver_time_s'] = 0.0
         _install_solver_timer(stats)
+        from symx import chpatch
+        chpatch.install()
         setup = getattr(hmod, 'worker_setup', None)
         if setup:
             setup()
